@@ -13,6 +13,7 @@ import (
 	"mvdan.cc/sh/v3/interp"
 
 	"github.com/go-task/task/v3/internal/execext"
+	"github.com/go-task/task/v3/internal/fingerprint"
 	"github.com/go-task/task/v3/internal/logger"
 	"github.com/go-task/task/v3/internal/output"
 	zz "github.com/go-task/task/v3/internal/zzsym"
@@ -140,6 +141,7 @@ type zzHist struct {
 	instances bool   // label and sources depend on the call variable T
 	inst      string // value of T in this step
 	killAt    string // probe during which the process of this step is killed ("" = not killed)
+	cmdIgnore   bool // the commands of the task have ignore_error: true
 	twoGen      bool // a second generates entry (out2), written together with the first
 	hasStatus   bool // the task also has a status: command
 	statusFails bool // ... which fails in this step
@@ -188,7 +190,7 @@ func (h *zzHist) taskfile() *ast.Taskfile {
 		n = 2
 	}
 	for k := 0; k < n; k++ {
-		t.Cmds = append(t.Cmds, &ast.Cmd{Cmd: h.cmdText(k, k == n-1)})
+		t.Cmds = append(t.Cmds, &ast.Cmd{Cmd: h.cmdText(k, k == n-1), IgnoreError: h.cmdIgnore})
 	}
 	tf.Tasks.Set("build", t)
 	// a second task without sources, never run: must stay untouched by queries
@@ -463,6 +465,8 @@ func ZZ_H_History() {
 	h.method = methods[zz.Choose("method", 2)]
 	// the kill history varies the kill point, and the long histories of the thorough tier the
 	// history (slim=1): not the task-shape dimensions below, which the short histories cover
+	// (a command with ignore_error that is cancelled by a sibling's failure did not succeed)
+	h.cmdIgnore = zz.Param("sibling_history", 0) == 1 && zz.Bool("build_commands_have_ignore_error")
 	focusKill := zz.Param("kill_history", 0) == 1 || zz.Param("slim", 0) == 1
 	h.hasPrompt = zz.Param("sibling_history", 0) == 0 && !focusKill && zz.Bool("has_prompt")
 	h.hasGen = zz.Bool("has_generates")
@@ -488,7 +492,16 @@ func ZZ_H_History() {
 	for k := 0; k < steps; k++ {
 		// file operations before the step
 		if k > 0 {
-			switch zz.Choose(fmt.Sprintf("op%d", k), 7) {
+			op := zz.Choose(fmt.Sprintf("op%d", k), 7)
+			if zz.Param("removal_history", 0) == 1 {
+				op = 7 // focused history: the file operation is the removal of a matched file
+			}
+			switch op {
+			case 7: // a matched file is removed
+				if h.p.exists("a.src") {
+					h.p.remove("a.src")
+					version++
+				}
 			case 1:
 				version++
 				h.p.put("a.src", fmt.Sprintf("v%d", version))
@@ -564,7 +577,7 @@ func ZZ_H_History() {
 		} else if mode == zzModeSibling {
 			zz.Assume(false) // covered by the focused history (registered separately)
 		}
-		if h.hasStatus || h.twoGen {
+		if h.hasStatus || h.twoGen || zz.Param("removal_history", 0) == 1 {
 			zz.Assume(mode != zzModeForce) // forced runs are the subject of the plain histories
 		}
 		if zz.Param("query_history", 0) == 1 {
@@ -699,8 +712,18 @@ func ZZ_H_Instances() {
 		h.p.put("b.src", "w0")
 	}
 	insts := []string{"a", "b"}
-	version := map[string]int{"a": 0, "b": 0}
-	okVersion := map[string]int{"a": -1, "b": -1}
+	if zz.Bool("instance_names_differ_only_in_punctuation") {
+		// labels build-p:q and build-p-q: different tasks must not share fingerprint state
+		insts = []string{"p:q", "p-q"}
+		h.p.put("p:q.src", "v0")
+		if same {
+			h.p.put("p-q.src", "v0")
+		} else {
+			h.p.put("p-q.src", "w0")
+		}
+	}
+	version := map[string]int{insts[0]: 0, insts[1]: 0}
+	okVersion := map[string]int{insts[0]: -1, insts[1]: -1}
 	steps := zz.Param("steps", 3)
 	for k := 0; k < steps; k++ {
 		inst := insts[zz.Choose(fmt.Sprintf("instance%d", k), 2)]
@@ -726,6 +749,51 @@ func ZZ_H_Instances() {
 			}
 		}
 	}
+	if zz.Twin() {
+		zz.Assert(false, "twin")
+	}
+	zz.Reach("end")
+}
+
+// ZZ_C05_ChecksumFraming (2-safety on the checksum of a source tree): two trees of up to two
+// files (a.src and optionally b.src, symbolic contents) that differ in a file's presence or
+// contents have different checksums. The symbolic run searches the stream model of the
+// checksum (see zzChecksum); the native replay computes the real xxh3 checksums.
+func ZZ_C05_ChecksumFraming() {
+	p := zzNewProject()
+	if zz.Native() {
+		defer os.RemoveAll(p.root)
+	}
+	alpha := "ab.src"
+	a1, b1 := zz.Str("tree1.a.src", 5, alpha), zz.Str("tree1.b.src", 5, alpha)
+	a2, b2 := zz.Str("tree2.a.src", 5, alpha), zz.Str("tree2.b.src", 5, alpha)
+	hasB1, hasB2 := zz.Bool("tree1.has_b.src"), zz.Bool("tree2.has_b.src")
+	// case split on the lengths (0, 1 or 5 bytes: nothing, a byte, a whole file name): with
+	// them fixed the framed stream is a concatenation of fixed-length pieces
+	lens := []int{0, 1, 5}
+	for k, c := range []string{a1, b1, a2, b2} {
+		zz.Assume(len(c) == lens[zz.Choose(fmt.Sprintf("length_class_%d", k), len(lens))])
+	}
+	same := a1 == a2 && hasB1 == hasB2 && (!hasB1 || b1 == b2)
+	zz.Assume(!same)
+	t := &ast.Task{Task: "build", Dir: p.root, Sources: []*ast.Glob{{Glob: "*.src"}}}
+	sum := func(a string, hasB bool, b string) string {
+		p.put("a.src", a)
+		if hasB {
+			p.put("b.src", b)
+		} else {
+			p.remove("b.src")
+		}
+		v, err := fingerprint.NewChecksumChecker(p.path(".task"), true).Value(t)
+		s, _ := v.(string)
+		if err != nil {
+			return "error"
+		}
+		return s
+	}
+	s1 := sum(a1, hasB1, b1)
+	s2 := sum(a2, hasB2, b2)
+	zz.Assert(s1 != s2, "different-source-trees-have-different-checksums")
 	if zz.Twin() {
 		zz.Assert(false, "twin")
 	}
